@@ -511,24 +511,168 @@ def _effective_value(bcs: ast.AST, g: CFG, obj: ast.AST, key: str, use_stmt: ast
         a = _effective_value(bcs, g, obj.body, key, use_stmt, _depth + 1, repo, rel)
         b = _effective_value(bcs, g, obj.orelse, key, use_stmt, _depth + 1, repo, rel)
         return a if a is not None and b is not None and ast.dump(a) == ast.dump(b) else None
+    if isinstance(obj, ast.BinOp) and isinstance(obj.op, ast.BitOr):
+        right = _effective_value(bcs, g, obj.right, key, use_stmt, _depth + 1, repo, rel)
+        if right is not None:
+            return right
+        if _surely_lacks_key(obj.right, key):
+            return _effective_value(bcs, g, obj.left, key, use_stmt, _depth + 1, repo, rel)
+        return None
+    if isinstance(obj, ast.NamedExpr):
+        return _effective_value(bcs, g, obj.value, key, use_stmt, _depth + 1, repo, rel)
     if isinstance(obj, ast.Name):
-        stores = [(st, v) for st, k, v in key_stores(bcs, obj.id) if k == key]
+        # the *last writers* of the entry on the paths into the serialisation: the binding of the local (it defines
+        # every key: the literal, the callee's mapping) and the stores made afterwards, a later one replacing an
+        # earlier one - whether the mapping is written as one literal, by successive stores or by update() is the
+        # same thing.  Decided on the control-flow graph, not by counting stores or by line order.
         use_nodes = g.nodes_for(use_stmt)
-        if stores:
-            if len(stores) != 1 or not use_nodes:
-                return None
-            st, v = stores[0]
-            st_nodes = g.nodes_for(st)
-            if not st_nodes:
-                return None
-            # the store lies on every path to the serialisation (dominance, not line order)
-            if all(g.dominated_by_node(u, st_nodes[0]) for u in use_nodes):
-                return v
+        if not use_nodes:
             return None
-        vals = assigned_value(bcs, obj.id)
-        if len(vals) == 1:
-            return _effective_value(bcs, g, vals[0], key, use_stmt, _depth + 1, repo, rel)
+        writers = _key_writers(g, obj.id, key)
+        preds = _preds(g)
+        todo = [p for u in use_nodes for p in preds.get(u, [])]
+        seen: Set[int] = set()
+        last: List[Tuple[str, Optional[ast.AST], ast.AST]] = []
+        while todo:
+            n = todo.pop()
+            if n in seen:
+                continue
+            seen.add(n)
+            if n in writers:
+                last.append(writers[n])
+                continue
+            if n == g.entry:
+                return None  # a path on which nothing was written: the entry is whatever the caller put there
+            todo.extend(preds.get(n, []))
+        vals: List[ast.AST] = []
+        for how, v, st in last:
+            if how == "unknown" or v is None:
+                return None
+            if how == "bind":
+                v = _effective_value(bcs, g, v, key, st, _depth + 1, repo, rel)
+                if v is None:
+                    return None
+            vals.append(v)
+        if vals and all(ast.dump(v) == ast.dump(vals[0]) for v in vals):
+            return vals[0]
     return None
+
+
+def _surely_lacks_key(e: ast.AST, key: str) -> bool:
+    """*e* is a mapping literal whose keys are all constants, none of them *key*."""
+    return isinstance(e, ast.Dict) and all(isinstance(k, ast.Constant) and k.value != key for k in e.keys)
+
+
+def _preds(g: CFG) -> Dict[int, List[int]]:
+    p = g.__dict__.get("_c05_preds")
+    if p is None:
+        p = {}
+        for a, outs in g.succ.items():
+            for b, _l in outs:
+                p.setdefault(b, []).append(a)
+        g.__dict__["_c05_preds"] = p
+    return p
+
+
+def _key_writers(g: CFG, name: str, key: str) -> Dict[int, Tuple[str, Optional[ast.AST], ast.AST]]:
+    """CFG node -> (how, value, statement) for every node that decides what the mapping held by the local *name* has
+    under the constant key *key* afterwards: 'bind' (the local is bound to *value*: all entries come from there),
+    'store' (`name[key] = value`, `name.update(key=value)` / `.update({key: value})`, `name.__setitem__(key, value)`),
+    'unknown' (a write that may or may not touch the entry, or whose value depends on what was there: a store under a
+    computed key, `update(<mapping>)`, `setdefault`, `pop`, `del`, `clear`, `|=`, tuple / loop / with bindings)."""
+    cache = g.__dict__.setdefault("_c05_writers", {})
+    if (name, key) in cache:
+        return cache[(name, key)]
+    out: Dict[int, Tuple[str, Optional[ast.AST], ast.AST]] = {}
+
+    def is_me(e: ast.AST) -> bool:
+        return isinstance(e, ast.Name) and e.id == name
+
+    def mentions(t: ast.AST) -> bool:
+        return any(is_me(x) for x in ast.walk(t))
+
+    for n in g.nodes:
+        a = n.ast
+        if a is None or isinstance(a, FuncNode + (ast.ClassDef,)):
+            continue
+        verdict: Optional[Tuple[str, Optional[ast.AST]]] = None
+
+        def put(how: str, v: Optional[ast.AST]) -> None:
+            nonlocal verdict
+            # several writes in one statement: the later one decides; an unknown one stays unknown unless the entry is
+            # overwritten / the local re-bound afterwards
+            verdict = (how, v)
+
+        if n.kind == "stmt":
+            root: Optional[ast.AST] = a
+        else:
+            root = n.part
+        # writes made by calls / walrus inside the evaluated expression (before the statement's own targets are bound)
+        if root is not None:
+            for x in walk_no_nested(root):
+                if isinstance(x, ast.NamedExpr) and is_me(x.target):
+                    put("unknown", None)
+                elif isinstance(x, ast.Call) and isinstance(x.func, ast.Attribute) and is_me(x.func.value):
+                    m = x.func.attr
+                    if m == "update":
+                        found: Optional[ast.AST] = None
+                        opaque = False
+                        for arg in x.args:
+                            if isinstance(arg, ast.Dict) and all(isinstance(k, ast.Constant) for k in arg.keys):
+                                for k, v in zip(arg.keys, arg.values):
+                                    if k.value == key:  # type: ignore[union-attr]
+                                        found = v
+                            else:
+                                opaque, found = True, None
+                        for kw in x.keywords:
+                            if kw.arg is None:
+                                opaque, found = True, None
+                            elif kw.arg == key:
+                                found = kw.value
+                        if found is not None:
+                            put("store", found)
+                        elif opaque:
+                            put("unknown", None)
+                    elif m == "__setitem__" and len(x.args) == 2:
+                        if isinstance(x.args[0], ast.Constant):
+                            if x.args[0].value == key:
+                                put("store", x.args[1])
+                        else:
+                            put("unknown", None)
+                    elif m in ("setdefault", "pop", "__delitem__"):
+                        if not (x.args and isinstance(x.args[0], ast.Constant) and x.args[0].value != key):
+                            put("unknown", None)
+                    elif m in ("clear", "popitem", "__ior__"):
+                        put("unknown", None)
+        if n.kind == "stmt" and isinstance(a, (ast.Assign, ast.AnnAssign)) and getattr(a, "value", None) is not None:
+            for t in (a.targets if isinstance(a, ast.Assign) else [a.target]):
+                if is_me(t):
+                    put("bind", a.value)
+                elif isinstance(t, ast.Subscript) and is_me(t.value):
+                    if isinstance(t.slice, ast.Constant):
+                        if t.slice.value == key:
+                            put("store", a.value)
+                    else:
+                        put("unknown", None)
+                elif isinstance(t, (ast.Tuple, ast.List, ast.Starred)) and any(is_me(x) or (isinstance(x, ast.Subscript) and is_me(x.value)) for x in ast.walk(t)):
+                    put("unknown", None)
+        elif n.kind == "stmt" and isinstance(a, ast.AugAssign):
+            if is_me(a.target) or (isinstance(a.target, ast.Subscript) and is_me(a.target.value) and not (isinstance(a.target.slice, ast.Constant) and a.target.slice.value != key)):
+                put("unknown", None)
+        elif n.kind == "stmt" and isinstance(a, ast.Delete):
+            for t in a.targets:
+                if is_me(t) or (isinstance(t, ast.Subscript) and is_me(t.value) and not (isinstance(t.slice, ast.Constant) and t.slice.value != key)):
+                    put("unknown", None)
+        elif n.kind == "for" and isinstance(a, (ast.For, ast.AsyncFor)) and mentions(a.target):
+            put("unknown", None)
+        elif n.kind == "with" and isinstance(a, (ast.With, ast.AsyncWith)) and any(it.optional_vars is not None and mentions(it.optional_vars) for it in a.items):
+            put("unknown", None)
+        elif n.kind == "except" and isinstance(a, ast.ExceptHandler) and a.name == name:
+            put("unknown", None)
+        if verdict is not None:
+            out[n.id] = (verdict[0], verdict[1], a)
+    cache[(name, key)] = out
+    return out
 
 
 def _enclosing_stmt(fn: ast.AST, node: ast.AST) -> ast.AST:
